@@ -56,6 +56,7 @@ func (dt *deleteTracker[Obj]) close() {
 	if dt.db == nil {
 		return
 	}
+	vhook("dt.close.begin")
 
 	// Remove the delete tracker from the table.
 	wtxn := dt.db.WriteTxn(dt.table)
